@@ -353,6 +353,16 @@ static void report_read(struct json_object *res, const unsigned char *data, size
                         int fds, int canon_fd)
 {
 	const char *m = json_util_get_last_err();
+	if (!real)
+	{
+		/* "the same bytes" = the bytes the descriptor delivered before end of file */
+		size_t got = 0;
+		for (size_t i = 0; i < ncalls; i++)
+			if (calls[i].len > 0)
+				got += (size_t)calls[i].len;
+		if (got < len)
+			len = got;
+	}
 	if (p_called)
 	{
 		struct json_tokener *tok = json_tokener_new_ex(depth_eff);
